@@ -11,6 +11,7 @@ import (
 	"io"
 	"sort"
 	"strings"
+	"unicode/utf8"
 
 	minify "github.com/tdewolff/minify/v2"
 	"github.com/tdewolff/minify/v2/css"
@@ -87,6 +88,7 @@ func (r *recorder) stub(mt string) minify.MinifierFunc {
 // ---------- hosts ----------
 
 type host struct {
+	via      string // media type of an intermediate real minifier that must be registered too (html > svg > style)
 	name     string
 	hostType string
 	build    func(payload string) string
@@ -320,6 +322,13 @@ var hosts = []host{
 		return "<script type=\"application/ld+json\" src=x></script><script>" + p + "</script>"
 	}, wantType: "application/javascript", pre: ident, extract: htmlLastElemText("script"), rawText: true},
 	{name: "html script after empty unknown-typed style", hostType: "text/html", build: func(p string) string { return "<style type=\"text/x-unknown\"></style><script>" + p + "</script>" }, wantType: "application/javascript", pre: ident, extract: htmlLastElemText("script"), rawText: true},
+	// an earlier typed raw-text element WITH content, then a raw-text element of the other kind that has attributes but no type
+	{name: "html attributed script after typed style", hostType: "text/html", build: func(p string) string {
+		return "<style type=\"text/css\">a{color:red}</style><script id=m>" + p + "</script>"
+	}, wantType: "application/javascript", pre: ident, extract: htmlLastElemText("script"), rawText: true},
+	{name: "html attributed style after typed script", hostType: "text/html", build: func(p string) string {
+		return "<script type=\"text/javascript\">f()</script><style media=print>" + p + "</style>"
+	}, wantType: "text/css", pre: ident, extract: htmlLastElemText("style"), rawText: true},
 	// two dispatched attributes on ONE element: scratch state must not leak from the first into the second
 	{name: "html onclick= after style= on the same element", hostType: "text/html", build: func(p string) string {
 		return "<p style=\"color:red\" onclick=\"" + attrEscape(p) + "\">x</p>"
@@ -332,11 +341,24 @@ var hosts = []host{
 	{name: "html onload=javascript:", hostType: "text/html", build: func(p string) string { return "<p onload=\" JavaScript:" + attrEscape(p) + "\">x</p>" }, wantType: "application/javascript", wantParams: "inline=1;", pre: func(p string) string { return jsPre(" JavaScript:" + p) }, extract: htmlAttr("p", "onload"), attr: true},
 	{name: "html href=data:text/css", hostType: "text/html", build: func(p string) string { return "<a href=\"data:text/css," + pctEncode(p+pad) + "\">x</a>" }, wantType: "text/css", pre: func(p string) string { return p + pad }, dataURI: true, extract: dataURIPayload(htmlAttr("a", "href")), attr: true},
 	{name: "html img src=data:image/svg+xml;base64", hostType: "text/html", build: func(p string) string { return "<img src=\"data:image/svg+xml;base64," + b64(p+pad) + "\">" }, wantType: "image/svg+xml", pre: func(p string) string { return p + pad }, dataURI: true, extract: dataURIPayload(htmlAttr("img", "src")), attr: true},
+	// an SVG inside HTML: the SVG minifier runs in inline mode, its style element is still a whole style sheet
+	{name: "html inline svg style element", via: "image/svg+xml", hostType: "text/html", build: func(p string) string { return "<p>x</p><svg><style>" + xmlTextEscape(p) + "</style><g/></svg>" }, wantType: "text/css", pre: strings.TrimSpace, extract: svgStyleText},
+	{name: "html inline svg style= attribute", via: "image/svg+xml", hostType: "text/html", build: func(p string) string { return "<p>x</p><svg><g style=\"" + xmlAttrEscape(p) + "\"/></svg>" }, wantType: "text/css", wantParams: "inline=1;", pre: xmlAttrNorm, extract: svgAttr("g", "style"), attr: true},
+	// non-ASCII text on the line of the resource: an error of the embedded minifier is reported at a character position
+	{name: "html script after non-ASCII text", hostType: "text/html", build: func(p string) string { return "<p>" + nonASCII + "</p><script>" + p + "</script>" }, wantType: "application/javascript", pre: ident, extract: htmlElemText("script"), rawText: true},
+	{name: "html onclick= after non-ASCII attribute", hostType: "text/html", build: func(p string) string {
+		return "<button title=\"" + nonASCII + "\" onclick=\"" + attrEscape(p) + "\">x</button>"
+	}, wantType: "application/javascript", wantParams: "inline=1;", pre: jsPre, extract: htmlAttr("button", "onclick"), attr: true},
+	{name: "svg style element after non-ASCII title", hostType: "image/svg+xml", build: func(p string) string {
+		return "<svg><title>" + nonASCII + "</title><style>" + xmlTextEscape(p) + "</style><g/></svg>"
+	}, wantType: "text/css", pre: strings.TrimSpace, extract: svgStyleText},
 	{name: "svg style element", hostType: "image/svg+xml", build: func(p string) string { return "<svg><style>" + xmlTextEscape(p) + "</style><g/></svg>" }, wantType: "text/css", pre: strings.TrimSpace, extract: svgStyleText},
 	{name: "svg style CDATA", hostType: "image/svg+xml", build: func(p string) string { return "<svg><style><![CDATA[" + p + "]]></style><g/></svg>" }, wantType: "text/css", pre: ident, extract: svgStyleText},
 	{name: "svg style= attribute", hostType: "image/svg+xml", build: func(p string) string { return "<svg><g style=\"" + xmlAttrEscape(p) + "\"/></svg>" }, wantType: "text/css", wantParams: "inline=1;", pre: xmlAttrNorm, extract: svgAttr("g", "style"), attr: true},
 	{name: "css url(data:image/svg+xml)", hostType: "text/css", build: func(p string) string { return "a{b:url(\"data:image/svg+xml," + pctEncode(p+pad) + "\")}" }, wantType: "image/svg+xml", pre: func(p string) string { return p + pad }, dataURI: true, extract: dataURIPayload(cssURL), attr: true},
 }
+
+const nonASCII = "Schließen – café menü ÄÖÜ äöü éèêë ñ ø å 日本語 テキスト" // 60 bytes more than characters
 
 func b64(s string) string {
 	const tbl = "ABCDEFGHIJKLMNOPQRSTUVWXYZabcdefghijklmnopqrstuvwxyz0123456789+/"
@@ -384,6 +406,9 @@ func CheckOne(h host, payload, mode string) (kind, what, out string) {
 	case "text/css":
 		m.Add("text/css", &css.Minifier{})
 	}
+	if h.via == "image/svg+xml" {
+		m.Add("image/svg+xml", &svg.Minifier{})
+	}
 	stubbed := mode != "unregistered" && mode != "real"
 	if stubbed {
 		if !(h.hostType == "text/css" && h.wantType == "text/css") {
@@ -396,7 +421,7 @@ func CheckOne(h host, payload, mode string) (kind, what, out string) {
 		}
 		m.AddRegexp(jsRe, &js.Minifier{})
 		m.AddRegexp(jsonRe, &mjson.Minifier{})
-		if h.hostType != "image/svg+xml" {
+		if h.hostType != "image/svg+xml" && h.via != "image/svg+xml" {
 			m.Add("image/svg+xml", &svg.Minifier{})
 		}
 	}
@@ -422,6 +447,19 @@ func CheckOne(h host, payload, mode string) (kind, what, out string) {
 				lines := strings.Count(doc, "\n") + 1
 				if pe.Line < 1 || pe.Line > lines {
 					return "error-position", fmt.Sprintf("error position line %d column %d lies outside the host document (%d lines)", pe.Line, pe.Column, lines), out
+				}
+				// columns count characters: the position may not lie behind the end of its line
+				if ls := strings.Split(doc, "\n"); pe.Line <= len(ls) && pe.Column > utf8.RuneCountInString(ls[pe.Line-1])+1 {
+					return "error-position", fmt.Sprintf("error position line %d column %d lies behind the end of that line (%d characters)", pe.Line, pe.Column, utf8.RuneCountInString(ls[pe.Line-1])), out
+				}
+				// the stub fails at the first byte of what it was given: the position lies at or before the end of the resource
+				if mark := h.build("\x01"); strings.Count(mark, "\x01") == 1 && !strings.Contains(doc[:strings.Index(mark, "\x01")], "\n") && pe.Line == 1 {
+					start := utf8.RuneCountInString(mark[:strings.Index(mark, "\x01")])
+					end := utf8.RuneCountInString(doc) - (utf8.RuneCountInString(mark) - 1 - start)
+					// (it may lie before the resource: at the start of the attribute value or of the CDATA section that holds it)
+					if pe.Column > end+2 {
+						return "error-position", fmt.Sprintf("error position column %d lies behind the embedded resource (characters %d..%d of the line)", pe.Column, start+1, end), out
+					}
 				}
 			}
 		}
